@@ -295,7 +295,7 @@ func ClassifyDump(dump string) string {
 		// fall back to the innermost transfer frames
 		var frames []string
 		for _, g := range strings.Split(dump, "\n\n") {
-			if !strings.Contains(g, "internal/transfer.") {
+			if !strings.Contains(g, "internal/transfer.") || strings.Contains(g, "newReadPool") {
 				continue
 			}
 			for _, line := range strings.Split(g, "\n") {
